@@ -55,6 +55,7 @@ ATTRS = {
     'B': [('n', 'int'), ('s', 'str')], 'C': [('n', 'int')], 'P': [('n', 'int')], 'D': [('n', 'int'), ('s', 'str')],
     'L': [('n', 'int')], 'S': [('n', 'int')], 'T1': [('n', 'int')], 'T2': [('s', 'str')],
 }
+REF_ATTRS = {'B': ['A_Id'], 'C': ['A_Id'], 'P': ['Prev_Id'], 'L': ['A_Id', 'D_Id']}
 READABLE = dict((k, v + ([('Id', 'id')] if k not in ('L',) else [])) for k, v in ATTRS.items())
 CLASSES = ['A', 'B', 'C', 'P', 'D', 'L', 'S', 'T1', 'T2']
 # relate recipes: (from class, to class, rel, phrase, from-end-free-when-fresh, to needs: 'fresh'|'any')
@@ -121,6 +122,8 @@ class Gen(object):
         self.consts = None            # [(group, name, oal type)] -> Group::NAME operands (prebuild) or plain NAME (interpreter)
         self.const_style = 'plain'
         self.arrays = False           # array element assignments / reads (prebuild checks only)
+        self.logical_calls = False    # invocations as operands of and / or (differential checks only)
+        self.refattrs = False         # reads of referential attributes (prebuild checks only: identifier values are not modelled)
         self.t = tape
         self.max_stmts = max_stmts
         self.max_depth = max_depth
@@ -132,6 +135,8 @@ class Gen(object):
 
     # -- expressions ----------------------------------------------------------------------------------------
     def var(self, name):
+        if name == 'self':
+            return N('SelfAccessNode')
         return N('VariableAccessNode', variable_name=name)
 
     def lit(self, ty):
@@ -253,7 +258,18 @@ class Gen(object):
             if hs and t.flag():
                 return N('UnaryOperationNode', operator='not', operand=N(
                     'UnaryOperationNode', operator=t.choice(['empty', 'not_empty']), operand=self.var(t.choice(hs))))
+            if self.calls is not None and t.flag():
+                # a keyword operator applied to an invocation: the callee (and its side effects) runs exactly once
+                c = self.calls.expr(self, env, 'bool', depth - 1)
+                if c is not None:
+                    return N('UnaryOperationNode', operator='not', operand=c)
             return N('UnaryOperationNode', operator='not', operand=sub('bool'))
+        if k == 6 and self.logical_calls and self.calls is not None and t.flag():
+            # invocation as an operand of and / or (only where results are compared between two runs of the library:
+            # how often such an operand is evaluated is not fixed by the language)
+            c = self.calls.expr(self, env, 'bool', depth - 1)
+            if c is not None:
+                return B(c, t.choice(['and', 'or']), sub('bool')) if t.flag() else B(sub('bool'), t.choice(['and', 'or']), c)
         if k == 6:
             ps = [n for n, pt in self.params.items() if pt == 'bool']
             if ps and t.flag():
@@ -306,6 +322,16 @@ class Gen(object):
         return block(stmts)
 
     def assign_scalar(self, env):
+        if self.refattrs and self.t.pick(5) == 0:
+            # read of a referential attribute (named differently from the identifying attribute it refers to)
+            cands = [(v, a) for v in env.vars(lambda i: i['ty'] == 'inst' and i.get('nonempty'))
+                     for a in REF_ATTRS.get(env.get(v)['cls'], [])]
+            if cands:
+                v, a = self.t.choice(cands)
+                name = env.fresh('u')
+                env.set(name, {'ty': 'id'})
+                self.features.add('referential-read')
+                return [N('AssignmentNode', variable_access=self.var(name), expression=N('FieldAccessNode', handle=self.var(v), name=a))]
         ty = self.t.choice(['int', 'int', 'str', 'bool', 'real'])
         vs = env.vars(lambda i: i['ty'] == ty and not i.get('ro'))
         if vs and self.t.flag():
